@@ -331,7 +331,10 @@ def _rec_prop(prop, rule):
     def fn(tier, seed, rng):
         import rec_gen
         quick = tier == "quick"
-        design = []
+        design = [design_check("Reconciler", "MCReconcilerQuick.cfg" if quick else "MCReconciler_fixed.cfg")]
+        if not quick:
+            design += [dict(mutant_check("Reconciler", "MCReconciler_dropRetry.cfg", "Live_C14"), states=0, transitions=0),
+                       dict(mutant_check("Reconciler", "MCReconciler_staleRetry.cfg", "Prop_C15_StatusOnly"), states=0, transitions=0)]
         n = 1 if quick else 20
         fams = [Family("general", "rec", "RecTrace", rec_gen.generate("general", 250 * n, seed * 53 + int(prop[1:]))),
                 Family("backoff", "rec", "RecTrace", rec_gen.generate("backoff", 120 * n, seed * 59 + int(prop[1:]))),
